@@ -593,6 +593,7 @@ class MultifileIngest(AbstractTraceIngest):
                 continue
             subdir, fpat = '/'.join(expanded.split('/')[:-1]), expanded.split('/')[-1]
             aiulog.log(aiulog.DEBUG, "Opening path:", pathlib.Path(subdir), "Pattern:", fpat)
-            flist += [f'{x}' for x in list(pathlib.Path(subdir).glob(fpat))]
+            # sorted: the order in which a directory lists its files is not a property of the input
+            flist += [f'{x}' for x in sorted(pathlib.Path(subdir).glob(fpat))]
         aiulog.log(aiulog.INFO, "Reading files:", flist)
         return flist
